@@ -413,7 +413,7 @@ fn run(ctx: &Ctx) {
                 c,
             }
         });
-    let cases = ctx.share(ctx.tier.pick(64_000, 3_200_000));
+    let cases = ctx.share(ctx.tier.pick(640_000, 6_400_000));
     ctx.run_cases("payloads", cases, strat, check);
 }
 
